@@ -38,7 +38,7 @@ CONSTANTS
 None == "none"
 
 AllKinds == {"fail", "err", "skip", "xfail", "uxs", "ki", "exit",
-             "custom", "custom2", "subfail", "subskip", "subki"}
+             "custom", "custom2", "subfail", "subskip", "subki", "skipobj"}
 BaseKinds == {"ki", "exit", "subki"}          \* do not derive from Exception
 
 \* The documented handler table (testcase.py:248-254), user-inserted handler first:
@@ -46,7 +46,7 @@ BaseKinds == {"ki", "exit", "subki"}          \* do not derive from Exception
 \*   custom2 = Exception subclass whose handler was appended BEHIND (Exception, error): never fires
 Map(k) == CASE k \in {"fail", "subfail", "custom"} -> "failure"
             [] k \in {"err", "custom2"} -> "error"
-            [] k \in {"skip", "subskip"} -> "skip"
+            [] k \in {"skip", "subskip", "skipobj"} -> "skip"     \* skipobj: skipTest(reason) with a non-str reason
             [] k = "xfail" -> "xfail"
             [] k = "uxs" -> "uxsuccess"
             [] k \in BaseKinds -> "error"
@@ -104,7 +104,7 @@ vars == <<pc, run, mode, decor, onexc, script, cur, pos, upcalled, stack, regist
 -----------------------------------------------------------------------------
 (* Steps user code can take                                                 *)
 St(op, a, b) == [op |-> op, a |-> a, b |-> b]
-EndOps == {"ret", "retnoup", "raise", "raise2", "failfixture"}
+EndOps == {"ret", "retnoup", "raise", "raise2", "raise2n", "raise0", "failfixture"}
 IsEnd(s) == s.op \in EndOps
 
 Name(b, n) == [b |-> b, n |-> n]
@@ -116,16 +116,17 @@ FreeFrom(b, n, dom) == IF Name(b, n) \in dom THEN FreeFrom(b, n + 1, dom) ELSE N
 Unique(nm, dom) == IF nm \in dom THEN FreeFrom(nm.b, nm.n + 1, dom) ELSE nm
 
 \* add a set of (name -> entry) pairs one by one, each under a non-clobbering name
-\* content ids are strings: <prefix><base name>
+\* content ids are strings: <prefix><name>
+NameStr(nm) == IF nm.n = 0 THEN nm.b ELSE nm.b \o "-" \o ToString(nm.n)
 RECURSIVE AddUnique(_, _, _, _)
 AddUnique(d, names, origin, pre) ==
     IF names = {} THEN d
     ELSE LET nm == CHOOSE x \in names : TRUE
              at == Unique(nm, DOMAIN d)
-             d2 == [x \in DOMAIN d \cup {at} |-> IF x = at THEN [origin |-> origin, cid |-> pre \o nm.b] ELSE d[x]]
+             d2 == [x \in DOMAIN d \cup {at} |-> IF x = at THEN [origin |-> origin, cid |-> pre \o NameStr(nm)] ELSE d[x]]
          IN AddUnique(d2, names \ {nm}, origin, pre)
 
-AddedOf(names, origin, pre) == {[origin |-> origin, cid |-> pre \o nm.b, base |-> nm.b] : nm \in names}
+AddedOf(names, origin, pre) == {[origin |-> origin, cid |-> pre \o NameStr(nm), base |-> nm.b] : nm \in names}
 
 \* _report_traceback: per-label counter, skipping names already present
 RECURSIVE TbName(_, _)
@@ -134,7 +135,7 @@ TbName(n, dom) == IF Name("traceback", n) \in dom THEN TbName(n + 1, dom) ELSE n
 \* effect of ONE exception of kind k raised in unit u reaching _got_user_exception:
 \* onException adds a traceback (unless exactly skip / uxs / xfail) and calls each handler once.
 \* (the xfail's assertion traceback is attached by expectFailure itself, before the raise)
-TbAddedBy(k) == k \notin {"skip", "uxs"}
+TbAddedBy(k) == k \notin {"skip", "skipobj", "uxs"}
 RECURSIVE Caught(_, _, _, _, _, _)
 \* returns <<details, tbNext, added, raised>> after processing the kinds in ks (a sequence)
 Caught(ks, u, d, tn, ad, rs) ==
@@ -262,7 +263,9 @@ EndKinds == Kinds
 FreeEnds ==
     {St("ret", None, None), St("retnoup", None, None)}
     \cup {St("raise", k, None) : k \in EndKinds}
-    \cup (IF AllowMulti THEN {St("raise2", k1, k2) : k1 \in {"fail", "err"}, k2 \in {"err", "skip", "ki"} \cap Kinds} ELSE {})
+    \cup (IF AllowMulti THEN {St(op, k1, k2) : op \in {"raise2", "raise2n"}, k1 \in {"fail", "err"},
+                                               k2 \in {"err", "skip", "ki"} \cap Kinds}
+                              \cup {St("raise0", None, None)} ELSE {})
     \cup {St("failfixture", f, None) : f \in {x \in Fixtures : FixtureSetUpFails(x)}}
 
 NextStep == IF mode = "follow"
@@ -294,6 +297,8 @@ RaisedBy(s) ==
       [] s.op = "retnoup" -> <<"err">>    \* forgot the upcall: the framework raises ValueError
       [] s.op = "raise"  -> <<s.a>>
       [] s.op = "raise2" -> <<s.a, s.b>>
+      [] s.op = "raise2n" -> <<s.a, s.b>>   \* MultipleExceptions nested in a MultipleExceptions
+      [] s.op = "raise0" -> <<"err">>       \* MultipleExceptions with no constituents: an error in its own right
       [] s.op = "failfixture" -> <<"err", "err">>    \* MultipleExceptions(original, SetupError)
 
 \* the unit ends: returns or raises; exceptions go through _got_user_exception
